@@ -200,10 +200,12 @@ type variant struct {
 	API     int // 0 ReadMessage, 1 NextReader+ReadAll, 2 NextReader + small reads
 	Seg     string
 	ReadBuf int
+	// EOFData: the transport hands out its last bytes together with io.EOF (allowed by io.Reader)
+	EOFData bool
 }
 
 func (v variant) String() string {
-	return fmt.Sprintf("api=%s seg=%s readbuf=%d", []string{"ReadMessage", "NextReader+ReadAll", "NextReader+Read(3)"}[v.API], v.Seg, v.ReadBuf)
+	return fmt.Sprintf("api=%s seg=%s readbuf=%d eof-with-data=%v", []string{"ReadMessage", "NextReader+ReadAll", "NextReader+Read(3)"}[v.API], v.Seg, v.ReadBuf, v.EOFData)
 }
 
 // readOne reads the next message with the chosen API.
@@ -238,6 +240,7 @@ func drive(cs *wsCase, wire []byte, v variant, seed int, maxMsgs int) observed {
 	a, _ := transport.NewConnPair()
 	a.In.Seg = transport.SegmenterByName(v.Seg, int64(seed)*7919+int64(len(wire)))
 	a.In.Write(wire)
+	a.In.EOFWithData = v.EOFData
 	a.In.CloseWrite()
 	ws := websocket.VerifNewConn(a, cs.Role == "server", v.ReadBuf, 0, false)
 	if cs.Limit > 0 {
@@ -591,9 +594,11 @@ func replayCase(c *rp.Ctx, i int, raw json.RawMessage) rp.Result {
 	}
 
 	// (1) the stream ends after the last frame
-	variants := []variant{{0, "whole", 0}, {1 + (i+c.Seed)%2, segs[1+(i+c.Seed)%2], []int{0, 125, 1024}[(i/2+c.Seed)%3]}}
+	variants := []variant{{API: 0, Seg: "whole"}, {API: 1 + (i+c.Seed)%2, Seg: segs[1+(i+c.Seed)%2], ReadBuf: []int{0, 125, 1024}[(i/2+c.Seed)%3]},
+		{API: (i + c.Seed) % 2, Seg: "whole", ReadBuf: 125, EOFData: true}}
 	if thorough {
-		variants = []variant{{0, "whole", 0}, {1, "one", 125}, {2, "random", 1024}, {(i + c.Seed) % 3, "random", 0}}
+		variants = []variant{{API: 0, Seg: "whole"}, {API: 1, Seg: "one", ReadBuf: 125}, {API: 2, Seg: "random", ReadBuf: 1024}, {API: (i + c.Seed) % 3, Seg: "random"},
+			{API: 0, Seg: "whole", ReadBuf: 125, EOFData: true}, {API: 1, Seg: "random", ReadBuf: 125, EOFData: true}}
 	}
 	if len(wire) > 40000 {
 		// large payloads: byte-wise delivery of 64 KiB frames costs too much for every case
@@ -624,7 +629,7 @@ func replayCase(c *rp.Ctx, i int, raw json.RawMessage) rp.Result {
 		rp.Bug("case %d: inconsistent step counters", i)
 	}
 	for j, off := range cutOffsets(len(wire)-lastStart, lastHdr, thorough, c.Seed+i) {
-		v := variant{(i + j + c.Seed) % 3, segs[(i/3+j+c.Seed)%3], []int{0, 125}[(i+j)%2]}
+		v := variant{API: (i + j + c.Seed) % 3, Seg: segs[(i/3+j+c.Seed)%3], ReadBuf: []int{0, 125}[(i+j)%2], EOFData: (i+j)%3 == 0}
 		if len(wire) > 40000 && v.Seg == "one" {
 			v.Seg = "whole"
 		}
